@@ -26,7 +26,7 @@ sec = f"""
 
 ## 12. Seeded changes and which checks catch them
 
-{len(rows)} property-breaking changes were written in nine batches by independent sub-agents that saw only the text of
+{len(rows)} property-breaking changes were written in ten batches by independent sub-agents that saw only the text of
 one property and a scratch worktree (nothing from /verif): batch 1 (ids `CnnA`, `CnnB`, all 20 properties, against the
 tree with fixes F1-F15), batch 2 (`CnnC`, `CnnD` for 12 schedule / negotiation properties, against the tree with F1-F24),
 batch 3 (`CnnC`, `CnnD` for the remaining 8, against F1-F26), batch 4 (`CnnE`, `CnnF` for the 8 schedule properties,
@@ -38,7 +38,9 @@ unit confusion) and batch 8 (`CnnO`, `CnnP` for all 20: rarely used option combi
 failed exchange, second occurrences, role asymmetry, changes after which two pyikev2 peers still agree with each other
 but not with RFC 7296) and batch 9 (`CnnQ`, one each for C02, C03, C08, C09, C10, C12, C13, C15, C16, C17, against the
 tree with F1-F28; the brief listed the changes already known for the property and asked for a different site or trigger;
-all ten were caught by the quick tier as it stood, C16Q by C10 rather than C16).  Each was confirmed in a scratch worktree (patch applies
+all ten were caught by the quick tier as it stood, C16Q by C10 rather than C16) and batch 10 (`CnnQ` for the other ten
+properties, same brief; seven caught as the checks stood, C04Q only by C01, C07Q and C14Q by nothing - C04, C07 and C14 were
+extended).  Each was confirmed in a scratch worktree (patch applies
 on its own, the 176-test baseline still passes, its demonstration exits 0 without and 1 with the change;
 `tools/confirm_seed2.sh`) and is kept as `seeded/<id>/{{patch.diff, demo.py, notes.md, meta.json}}`.
 `tools/run_seeded.py` applies each to a scratch worktree of /repo's HEAD, points the **quick** tier of its property's
@@ -97,6 +99,12 @@ selectors, other mode), C13 (the schedule a new IKE_SA starts with), C14 (negoti
 algorithm names, key lengths and lifetimes incl. -1), C15 (events queued behind a moot one), C16 (a DELETE of the IKE_SA
 crossing its rekey), C18 (half-open IKE_SAs that are the victim's own initiations), C19 (identities with capitals), C20
 (every suite in the directed cases; candidate CHILD_SA keys of an IKE_AUTH responder that fails before it answers).
+
+Batch 10 - C04 (the end-to-end sessions now give one side another first DH preference, so IKE_SA_INIT and the IKE_SA rekey
+started by that side both go through an INVALID_KE_PAYLOAD retry, and a further CHILD_SA is negotiated on the successor; for
+C04Q), C07 (the same Message object serialised twice: the second datagram must parse back to the same payloads under the
+same keys, `second-serialisation-*`; for C07Q), C14 (the negotiated-CHILD_SA stage rotates the entry's selector ports through
+0 / 1 / 65534 / 65535 combinations and compares ports and masks of every NEWSA by direction, `child-sa:ports`; for C14Q).
 """
 p = ROOT + '/DESIGN.md'
 s = open(p).read()
